@@ -566,7 +566,10 @@ def run_world(world, wall_limit=20):
     signal.setitimer(signal.ITIMER_PROF, wall_limit)
     tr = None
     try:
-        pools, sched, loader, flags, fl, sc = worlds.build(world)
+        try:
+            pools, sched, loader, flags, fl, sc = worlds.build(world)
+        except Exception as e:  # noqa  building the world is harness work: never a verdict
+            raise RuntimeError(f"world could not be built: {type(e).__name__}: {e}") from e
         from utils import EventTime
 
         sim = simmod.Simulator(
@@ -593,6 +596,8 @@ def run_world(world, wall_limit=20):
     except HangDetected as h:
         end["hang"] = str(h)
     except Exception as e:  # noqa
+        if str(e).startswith("world could not be built"):
+            raise
         end["exc"] = f"{type(e).__name__}: {e}"[:500]
         end["tb"] = traceback.format_exc()[-1500:]
     finally:
